@@ -40,7 +40,12 @@ def b_isinstance(ex, st, args, kwargs, cx, node):
             r = o.r(t)
             n = z3.simplify(st.rd("$len", r))
             if not z3.is_int_value(n):
-                raise Unsupported("isinstance with a dynamic tuple")
+                for k in range(1, 6):
+                    if o.entails(st, n == k, cheap=True):
+                        n = z3.IntVal(k)
+                        break
+                else:
+                    raise Unsupported("isinstance with a dynamic tuple")
             for j in range(n.as_long()):
                 c = z3.simplify(z3.Select(st.rd("$items", r), j))
                 fs.append(dyn_isinstance(ex, v.e, c))
@@ -425,7 +430,9 @@ CONTAINER_METHODS = {
 # ====================================================================== externals
 def x_expanduser(ex, st, args, kwargs, cx):
     f = ex.w.fun("expanduser", "str", "str")
-    yield st, ex.o.str_(f(ex.o.s(args[0])))
+    t = f(ex.o.s(args[0]))
+    st.terms.append(("str", t))
+    yield st, ex.o.str_(t)
 
 
 trusted("os.path.expanduser", "a deterministic total function of its argument (uninterpreted)")
